@@ -295,9 +295,12 @@ def _r(x, alpha, eps):
 @njit
 def _find_root_by_bisection(a, b, alpha, eps, tol=1e-8):
     # find root of function func in interval [a, b] by bisection."""
+    # _r is positive at a and negative at b; _r(a) itself may evaluate to NaN
+    # (zero discriminant in _r2), so only the sign at the midpoint is used
+    c = (a + b) / 2.
     while b - a > tol:
         c = (a + b) / 2.
-        if _r(a, alpha, eps) * _r(c, alpha, eps) < 0:
+        if _r(c, alpha, eps) < 0:
             b = c
         else:
             a = c
